@@ -256,8 +256,78 @@ def nested_case(item):
     return (1, 0, [{"rule": j[0], "expected": dict(j[1], sized_as="whole units" if sub_int else "fractional", root_mode=root_int), "observed": obs, "point": [p, 1.0, None, None, sub_int, 0.0, amount, "nested", root_int, decl]}])
 
 
+def config_case(item):
+    """the commission function and the position mode the user configured reach the node that trades:
+    three-level trees (root.set_commissions), and templates handed to Backtest with the other mode set"""
+    bt = rt.bt()
+    kind = item[0]
+    idx = pd.DatetimeIndex(["2020-01-01", "2020-01-02", "2020-01-03"])
+    if kind == "deep_fee":
+        _, p, depth, feename, integer, amount = item
+        data = pd.DataFrame({"x": [p, p, p], "y": [1.0, 1.0, 1.0]}, index=idx, dtype=float)
+        leaf = bt.Strategy("leaf", [], [bt.Security("x")])
+        node = leaf
+        names = ["leaf"]
+        for k in range(depth - 2):
+            node = bt.Strategy("mid%d" % k, [], [node])
+            names.insert(0, "mid%d" % k)
+        root = bt.Strategy("r", [], [node, bt.Security("y")])
+        root.use_integer_positions(integer)
+        spy = T.FeeSpy(feename)
+        root.set_commissions(spy)
+        root.setup(data)
+        root.adjust(CAP)
+        root.update(idx[0])
+        cur = root
+        amt = CAP / 2.0
+        for nm in names:
+            cur.allocate(amt, child=nm)
+            root.update(idx[0])
+            cur = cur[nm]
+            amt = amt / 2.0
+        root.update(idx[1])
+        owner = cur
+        c0 = owner.capital
+        try:
+            owner.allocate(amount, child="x")
+            root.update(root.now)
+            sec = owner["x"]
+            obs = {"q": float(sec.position), "spent": c0 - owner.capital, "pos1": float(sec.position), "value0": 0.0}
+        except Exception as e:
+            obs = {"raised": rt.guard_id(e) or ("crash:" + rt.describe(e))}
+        j = judge(obs, 0.0, amount, p, 1.0, None, feename, integer)
+        what = {"levels": depth, "fee": feename}
+    else:
+        _, p, pre, arg, feename, amount, decl = item
+        data = pd.DataFrame({"x": [p, p, p]}, index=idx, dtype=float)
+
+        class AllocOnce(bt.core.Algo):
+            def __call__(self, target):
+                if target.now == idx[1]:
+                    target.allocate(amount, child="x")
+                return True
+
+        tpl = bt.Strategy("t", [AllocOnce()], [bt.Security("x")] if decl == "eager" else ["x"])
+        if pre is not None:
+            tpl.use_integer_positions(pre)
+        b = bt.Backtest(tpl, data, initial_capital=CAP, integer_positions=arg, commissions=T.fee_fn(feename), progress_bar=False)
+        try:
+            b.run()
+            sec = b.strategy["x"]
+            obs = {"q": float(sec.position), "spent": CAP - float(b.strategy.capital), "pos1": float(sec.position), "value0": 0.0}
+        except Exception as e:
+            obs = {"raised": rt.guard_id(e) or ("crash:" + rt.describe(e))}
+        j = judge(obs, 0.0, amount, p, 1.0, None, feename, arg)
+        what = {"template_mode_before": pre, "backtest_integer_positions": arg, "fee": feename}
+    if j is None:
+        return (1, 1 if obs.get("q") else 0, [])
+    return (1, 0, [{"rule": j[0], "expected": dict(j[1], configured=what), "observed": obs, "point": [None, None, None, None, None, None, None, "config", list(item)]}])
+
+
 def replay(case):
     pt = case["point"]
+    if len(pt) > 7 and pt[7] == "config":
+        return [dict(v, point=None) for v in config_case(tuple(pt[8]))[2]]
     p, m, spread, feename, integer, pos, amount = pt[:7]
     if p is None:
         p = float("nan")
@@ -332,7 +402,7 @@ def grid(tier, seed):
 
 
 def run(ctx):
-    ctx.rule = "full Cartesian grid price x multiplier x spread x fee x mode x position x amount (plus the closing amount -value, amount 0, NaN/zero price); root mode x sub-strategy mode x declared / lazily created security x amount in a two-level tree; a point is non-trivial if it lies inside the property's domain and a non-zero quantity was traded"
+    ctx.rule = "full Cartesian grid price x multiplier x spread x fee x mode x position x amount (plus the closing amount -value, amount 0, NaN/zero price); root mode x sub-strategy mode x declared / lazily created security x amount in a two-level tree; commission function set at the root of 2-4 level trees; templates with a position mode of their own handed to Backtest; a point is non-trivial if it lies inside the property's domain and a non-zero quantity was traded"
     ctx.assumptions += [
         "fee families: none, flat 1, proportional 1/8, per-share 1/4, max(1,|q|/8) (+ decimal 0.1% and 1%+0.5 in thorough); grid points whose fee is not below the unit price minus half spread are outside the property's domain and not judged",
         "cost(q) = q*p*m + |q|*spread/2*m + fee(q, p*m), cost(0) = 0; integer: q* = max{q : cost(q) <= amount} by bisection on the strictly increasing cost",
@@ -363,6 +433,16 @@ def run(ctx):
             for v in viols:
                 pt = v.pop("point", None)
                 ctx.violation(dict(v, build=kind, module=MOD, case={"point": pt}))
+    conf = [("deep_fee", p, depth, fe, integer, a) for p in (2.5, 100.0) for depth in (2, 3, 4) for fe in ("flat", "pershare", "prop") for integer in (True, False) for a in (123.45, 1234.5, 7.7)]
+    conf += [("backtest_mode", p, pre, arg, fe, a, decl) for p in (2.5, 100.0) for pre in (None, True, False) for arg in (True, False) for fe in (None, "flat") for a in (123.45, 1234.5) for decl in ("lazy", "eager")]
+    for kind in kinds:
+        for item, (n, nontrivial, viols) in ctx.run(kind, MOD, "config_case", conf, chunksize=8):
+            ctx.add(states=n, transitions=n, traces_validated_against_impl=n, evaluations=n)
+            ctx.nontrivial_count += nontrivial
+            for v in viols:
+                pt = v.pop("point", None)
+                ctx.violation(dict(v, build=kind, module=MOD, case={"point": pt}))
+    ctx.bounds["configured_fee_and_mode_cases"] = len(conf)
     ctx.bounds["nested_mode_cases"] = len(nested)
     ctx.sample({"point": {"price": 10.0, "multiplier": 2.0, "spread": 0.5, "fee": "maxflat", "integer": True, "position": -3.0, "amount": 25.5}})
     ctx.sample({"line": [str(x) for x in lines[len(lines) // 2][:6]]})
